@@ -83,7 +83,6 @@ SEEDS = {
  "C07-m4": ("C07", "an unbound variable on the left facing `$_` as a list element or bare operand (early return for `$_` on the right removed)", ["C07", "C09"]),
  "C09-m3": ("C09", "an already bound variable whose binding, or the other term, holds a nested `$_` and no variable ('ground' fast path compares with ==)", ["C09", "C06"]),
  "C09-m4": ("C09", "a `$_` list element aligned exactly with the other list's tail variable", ["C09", "C06", "C07"]),
- "C10-m3": ("C10", "a conjunction whose head goal is solved through a rule, whose tail fails and whose head is retried at a choice point two levels down (ids restored to the value before the head goal)", ["C10", "C01"]),
  "C10-m4": ("C10", "a clause whose variables already carry ids (renamed before, or built with logic_var!(id, ..)): returned unchanged by the renamer", ["C10"]),
  "C12-m3": ("C12", "a whole-valued float literal as an operand of an infix expression with integers (infix re-spelled through Display and re-parsed: 2.0 becomes 2)", ["C12"]),
  "C12-m4": ("C12", "all-integer divide with a negative dividend or intermediate quotient and a remainder (div_euclid)", ["C12"]),
@@ -91,7 +90,6 @@ SEEDS = {
  "C04-m4": ("C04", "a format string with %s markers that reaches print through a bound variable (only literal first arguments are treated as formats)", ["C04"]),
  "C06-m3": ("C06", "both lists have a tail at the same position, one of them `$_` (API-built), and an earlier element pair creates a binding: the call returns the substitution it was given", ["C06", "C09"]),
  "C06-m4": ("C06", "an already aliased pair of variables unified again with the bound one on the left (free 'other' bound directly without walking the chain): cycle", ["C06", "C08"]),
- "C08-m3": ("C08", "a conjunction whose first goal is solved through rules and whose tail rejects its first two solutions; the third fetches a fact with a nested fresh variable (stale id restored on every iteration)", ["C08", "C10", "C01"]),
  "C08-m4": ("C08", "inside a complex term, a left variable with an id above every bound variable that is already aliased low-to-high ('fresh variable' fast path bypasses the alias walk)", ["C08", "C06"]),
  "C11-m3": ("C11", "not(G) on a call that, after dereferencing, holds two distinct unbound variables with the same *name* from different scopes (goal re-renamed by name inside not)", ["C11", "C03"]),
  "C11-m4": ("C11", "two variables of one clause whose names differ only in a trailing _<digits> suffix, read by the parser (printed form $X_12 accepted as id 12, name $X)", ["C11", "C19", "C20"]),
